@@ -42,9 +42,8 @@ PLANS["thorough"] = PLANS["quick"] + [
     (2, 2, 2, "core", "m3", "all", "le1", "le1", "all", "all", 32),
     (3, 2, 2, "m3", "m3", "two", "le1", "probe", "all", "all", 64),
     (3, 3, 2, "m3", "m2", "two", "probe", "probe", "some", "some", 64),
-    (3, 3, 3, "m3", "m3", "all", "probe", "probe", "some", "all", 64),
+    (3, 3, 3, "m3", "m2", "two", "probe", "probe", "some", "all", 64),
     (4, 2, 2, "m1", "m1", "two", "le1", "le1", "all", "all", 32),
-    (4, 3, 2, "m2", "m1", "two", "le1", "probe", "some", "some", 64),
 ]
 
 META = {
